@@ -40,6 +40,13 @@ type c15Case struct {
 	Cfg  c15ref.Config `json:"cfg"`
 	LB   string        `json:"lb"` // "rr" | "random": inner balancer type
 	Only *c15ref.Probe `json:"only,omitempty"`
+	// wide scope: the probes are derived from the configuration
+	// (c15ref.WideProbes); the replayable case of a violation is the
+	// configuration + the criteria KEY SET (every value assignment of that key
+	// set is re-asked: which sibling subset a builder loses may depend on Go's
+	// map iteration order, the failing class does not).
+	Wide     *c15ref.WideSpec `json:"wide,omitempty"`
+	OnlyKeys *[]string        `json:"only_keys,omitempty"`
 }
 
 // ---- criteria / context handed to the balancers (the cluster package cannot
@@ -129,6 +136,9 @@ type c15Env struct {
 	probes []*c15Probe
 	seenD  map[c15DKey]bool
 	seenO  map[c15OKey]bool
+	nprobes int64
+	wideKey    string
+	wideProbes []*c15Probe
 }
 
 func c15NewEnv(probes []c15ref.Probe) *c15Env {
@@ -196,16 +206,43 @@ func (e *c15Env) host(pos int, meta []c15ref.Pair, info types.ClusterInfo) types
 	return h
 }
 
+// c15Script replaces the random source of every inner random balancer. It
+// walks the balancer structure itself: LoadBalancers() names entries by joining
+// keys and values with ':' and '->' and merges two entries whose names collide
+// (values containing the separators), which would leave one unscripted.
 func c15Script(lb types.LoadBalancer, src *c15Src) {
-	sl, ok := lb.(types.SubsetLoadBalancer)
-	if !ok {
-		return
-	}
-	for _, l := range sl.LoadBalancers() {
+	one := func(l types.LoadBalancer) {
 		if r, ok := l.(*randomLoadBalancer); ok {
 			r.rand = rand.New(src)
 		}
 	}
+	sl, ok := lb.(*subsetLoadBalancer)
+	if !ok {
+		if g, ok := lb.(types.SubsetLoadBalancer); ok {
+			for _, l := range g.LoadBalancers() {
+				one(l)
+			}
+		}
+		return
+	}
+	one(sl.fullLb)
+	if sl.fallbackSubset != nil && sl.fallbackSubset.lb != nil {
+		one(sl.fallbackSubset.lb)
+	}
+	var walk func(m types.LbSubsetMap)
+	walk = func(m types.LbSubsetMap) {
+		for _, vm := range m {
+			for _, e := range vm {
+				if e.Initialized() {
+					one(e.LoadBalancer())
+				}
+				if e.Children() != nil {
+					walk(e.Children())
+				}
+			}
+		}
+	}
+	walk(sl.subSets)
 }
 
 func c15LbKeys(lb types.LoadBalancer) string {
@@ -272,11 +309,22 @@ func c15Check(e *c15Env, p *vreport.Part, c c15Case) {
 	lbF, perrF := c15Build(func(i types.ClusterInfo, h types.HostSet) types.LoadBalancer { return NewSubsetLoadBalancer(i, h) }, info, hs)
 	lbP, perrP := c15Build(NewSubsetLoadBalancerPreIndex, info, hs)
 	if perrF != "" || perrP != "" {
+		// a configuration that contains an empty selector entry [] gets its own
+		// finding key (one defect, one key; any other build panic keeps the plain key)
+		sfx := ""
+		for _, s := range c.Cfg.Selectors {
+			if len(s) == 0 {
+				sfx = " | configuration with an empty selector []"
+			}
+		}
 		if perrF != "" {
-			p.Violation("filtering builder | panic while building", perrF, c)
+			p.Violation("filtering builder | panic while building"+sfx, perrF, c)
 		}
 		if perrP != "" {
-			p.Violation("pre-index builder | panic while building", perrP, c)
+			p.Violation("pre-index builder | panic while building"+sfx, perrP, c)
+		}
+		if (perrF != "") != (perrP != "") {
+			p.Outcome("build panic in one builder only" + sfx)
 		}
 		return
 	}
@@ -286,9 +334,33 @@ func c15Check(e *c15Env, p *vreport.Part, c c15Case) {
 		p.Violation("builders disagree | LoadBalancers() key set", fmt.Sprintf("filtering: [%s] pre-index: [%s]", kf, kp), c)
 	}
 	probes := e.probes
-	if c.Only != nil {
+	switch {
+	case c.Only != nil:
 		probes = []*c15Probe{c15MakeProbe(*c.Only)}
-	} else {
+	case c.Wide != nil:
+		// the derived probes depend on hosts, selectors and spec only: successive
+		// configurations (fallback / inner balancer alternatives) reuse them
+		wk := ""
+		if c.OnlyKeys == nil {
+			wk = fmt.Sprintf("%q|%q|%q|%v", c.Cfg.Hosts, c.Cfg.Selectors, c.Wide.P, c.Wide.AllKeySets)
+		}
+		if wk != "" && wk == e.wideKey {
+			probes = e.wideProbes
+		} else {
+			probes = nil
+			for _, pr := range c15ref.WideProbes(&c.Cfg, *c.Wide, c.OnlyKeys) {
+				probes = append(probes, c15MakeProbe(pr))
+			}
+			if c.OnlyKeys == nil {
+				probes = append(probes, c15MakeProbe(c15ref.Probe{Kind: "nil-criteria"}), c15MakeProbe(c15ref.Probe{Kind: "nil-ctx"}))
+				e.wideKey, e.wideProbes = wk, probes
+			}
+		}
+		if c.OnlyKeys == nil {
+			p.EvalN(len(probes) - 1)
+			e.nprobes += int64(len(probes))
+		}
+	default:
 		p.EvalN(len(probes) - 1)
 	}
 	for _, q := range probes {
@@ -297,6 +369,11 @@ func c15Check(e *c15Env, p *vreport.Part, c c15Case) {
 		// the replayable case of a violation = this configuration + this probe only
 		only := func() c15Case {
 			cq := c
+			if c.Wide != nil && q.p.Kind == "criteria" {
+				ks := c15ref.CritKeys(q.p.Crit)
+				cq.OnlyKeys = &ks
+				return cq
+			}
 			pr := q.p
 			cq.Only = &pr
 			return cq
@@ -496,3 +573,81 @@ func TestVerifC15Subset2Keys(t *testing.T) { c15RunPart("subset-2keys", c15Bound
 func TestVerifC15Subset3Keys(t *testing.T) { c15RunPart("subset-3keys", c15Bounds3()) }
 
 func TestVerifC15Subset4Hosts(t *testing.T) { c15RunPart("subset-4hosts", c15Bounds4()) }
+
+// ---- wide scope: selectors of every size 1..8, overlapping selector lists,
+// order-trap key names, hand-written shortcut inputs (see c15ref "wide scope").
+
+func c15WideBound() c15ref.WideBound {
+	b := c15ref.WideBound{Sizes: []int{1, 2, 3, 4, 5, 6, 7, 8}, Bases: []string{"prefix", "suffix"}, Spellings: []string{"sorted", "rotated"},
+		SingleVals: 3, PairVals: 2, Extras: []bool{true}}
+	if vreport.Thorough() {
+		b.Bases = []string{"prefix", "suffix"}
+		b.Spellings = []string{"sorted", "reversed", "rotated", "dup"}
+		b.PairVals = 3
+		b.Extras = []bool{false, true}
+		b.AllFB, b.AllKeySets, b.DupList = true, true, true
+	}
+	return b
+}
+
+const c15WideRule = "complete product: selector size x base x spelling x selector list x varied key positions x extra hosts x fallback x inner balancer, then every derived probe (criteria key sets x value assignments, see bound) = HostNum + IsExistsHosts + n+1 successive ChooseHost on BOTH builders; sorted criteria are compared with the reference written from the statement (a selector with exactly the criteria's key set and a host carrying all pairs: chosen within those hosts, never nil, HostNum = their number; otherwise the fallback policy exactly) and between the builders; the reversed order, a context without criteria and a nil context between the builders only; LoadBalancers() key sets compared between builders; a violation's replayable case is the configuration + the criteria key set (all value assignments re-asked); evaluations = (configuration, inner balancer, probe) triples; distinct/outcomes as in the small-scope parts"
+
+func c15RunWide(name string, bound string, gen func(yield func(c15ref.Config, c15ref.WideSpec) bool) bool, randomFor func(c15ref.Config) bool) {
+	p := vreport.Begin("C15", name, 25*time.Minute)
+	e := c15NewEnv(nil)
+	si, sn := vreport.Shard()
+	configs := 0
+	complete := vreport.Run(p, func(yield func(c15Case) bool) {
+		idx := 0
+		gen(func(cfg c15ref.Config, spec c15ref.WideSpec) bool {
+			for _, lb := range []string{"rr", "random"} {
+				if lb == "random" && !randomFor(cfg) {
+					continue
+				}
+				idx++
+				if idx%sn != si {
+					continue
+				}
+				spec := spec
+				if !yield(c15Case{Cfg: cfg, LB: lb, Wide: &spec}) {
+					return false
+				}
+			}
+			return true
+		})
+	}, func(p *vreport.Part, c c15Case) {
+		configs++
+		c15Check(e, p, c)
+		if p.WantSample() {
+			s := c // keep samples small: one key set
+			if s.OnlyKeys == nil && s.Only == nil && s.Wide != nil && s.Wide.P != nil {
+				ks := append([]string{}, s.Wide.P...)
+				s.OnlyKeys = &ks
+			}
+			p.Sample(s)
+		}
+	})
+	p.Note("configurations", configs)
+	p.Note("probes_total", e.nprobes)
+	p.Note("cluster_infos_built", len(e.infos))
+	p.End(complete, bound, c15WideRule)
+}
+
+func TestVerifC15SubsetWide(t *testing.T) {
+	b := c15WideBound()
+	thorough := vreport.Thorough()
+	c15RunWide("subset-wide-selectors-1to8", b.String()+"; inner balancer round-robin for every configuration, random (source scripted, all draws) for "+
+		map[bool]string{true: "every configuration", false: "the single-selector lists"}[thorough]+"; all hosts healthy",
+		func(yield func(c15ref.Config, c15ref.WideSpec) bool) bool { return c15ref.WideConfigs(b, yield) },
+		func(cfg c15ref.Config) bool { return thorough || len(cfg.Selectors) == 1 })
+}
+
+func TestVerifC15SubsetShortcuts(t *testing.T) {
+	var names []string
+	for _, s := range c15ref.Shortcuts() {
+		names = append(names, s.Name)
+	}
+	c15RunWide("subset-shortcut-inputs", fmt.Sprintf("%d hand-written configurations, one per implementation shortcut seen in the builders/balancer: %s; each under none / any-endpoint / default-subset {} / {zz:9} and, for each listed default subset, default-subset / any-endpoint / none with it configured; criteria: every subset of the configuration's keys + unknown key zz, each key taking every value some host has for it, plus first/last criterion replaced by the unknown value, plus one reversed order; inner balancer round-robin and random (scripted, all draws); all hosts healthy",
+		len(names), strings.Join(names, " | ")),
+		c15ref.ShortcutConfigs, func(c15ref.Config) bool { return true })
+}
